@@ -115,6 +115,21 @@ theorem dimension_index_of_position (x : PMInput) (a b : Nat) (h : x.pos a = x.p
     dimensionIndex x a = dimensionIndex x b := by
   unfold dimensionIndex; rw [h]
 
+/-- **Dimension Index Values are the ranks of the plane's attribute values**: for every indexed attribute `d`
+(Image Position Patient as a whole; or column, row, x, y, z of the slide position) the index written for plane
+`a` is `1 +` the number of distinct values over all planes that are (lexicographically) smaller; hence it lies
+in `1 .. number of distinct values`, and a plane with a smaller value gets a strictly smaller index. -/
+theorem dimension_index_is_rank (x : PMInput) (a d : Nat) (ha : a < x.n) (u : List Rat) (hu : (x.pos a)[d]? = some u) :
+    (dimensionIndex x a)[d]? = some (rankIn (attributeValues x d) u) ∧
+    1 ≤ rankIn (attributeValues x d) u ∧ rankIn (attributeValues x d) u ≤ (attributeValues x d).eraseDups.length :=
+  ⟨dimensionIndex_get x a d u hu, rankIn_bounds _ u (mem_attributeValues x a d ha u hu)⟩
+
+theorem dimension_index_monotone (x : PMInput) (a b d : Nat) (ha : a < x.n) (u v : List Rat)
+    (hu : (x.pos a)[d]? = some u) (hv : (x.pos b)[d]? = some v) (hlt : lexLt u v = true) :
+    ∃ ra rb, (dimensionIndex x a)[d]? = some ra ∧ (dimensionIndex x b)[d]? = some rb ∧ ra < rb :=
+  ⟨_, _, dimensionIndex_get x a d u hu, dimensionIndex_get x b d v hv,
+    rankIn_lt _ u v (mem_attributeValues x a d ha u hu) hlt⟩
+
 /-- **`rwvm_of_frame`**: the mappings are shared by all frames iff there is a single channel; otherwise
 every frame carries its own, and the mapping list the reader finds for frame `f` is that of channel
 `f mod m`. -/
